@@ -5,6 +5,8 @@
 package scaleoffset
 
 import (
+	"math"
+
 	"github.com/muktihari/fit/profile/basetype"
 	"github.com/muktihari/fit/proto"
 )
@@ -149,10 +151,20 @@ func DiscardSlice[T Numeric](values []float64, scale, offset float64) []T {
 		}
 	} else {
 		for i := range values {
-			vals[i] = T((values[i] + offset) * scale)
+			vals[i] = T(round[T]((values[i] + offset) * scale))
 		}
 	}
 	return vals
+}
+
+// round rounds v to the nearest integer when T is an integer type, so that a scaled value such as
+// 0.29 (raw 29, scale 100) which is 28.999999999999996 after multiplication is restored to 29 instead of 28.
+func round[T Numeric](v float64) float64 {
+	switch any(T(0)).(type) {
+	case float32, float64:
+		return v
+	}
+	return math.Round(v)
 }
 
 // DiscardValue restores scaled value in the form of float64 or []float64 to its basetype's form.
@@ -162,25 +174,25 @@ func DiscardValue(value proto.Value, baseType basetype.BaseType, scale, offset f
 		dv := Discard(value.Float64(), scale, offset)
 		switch baseType {
 		case basetype.Sint8:
-			return proto.Int8(int8(dv))
+			return proto.Int8(int8(math.Round(dv)))
 		case basetype.Byte, basetype.Uint8, basetype.Uint8z:
-			return proto.Uint8(uint8(dv))
+			return proto.Uint8(uint8(math.Round(dv)))
 		case basetype.Sint16:
-			return proto.Int16(int16(dv))
+			return proto.Int16(int16(math.Round(dv)))
 		case basetype.Uint16, basetype.Uint16z:
-			return proto.Uint16(uint16(dv))
+			return proto.Uint16(uint16(math.Round(dv)))
 		case basetype.Sint32:
-			return proto.Int32(int32(dv))
+			return proto.Int32(int32(math.Round(dv)))
 		case basetype.Uint32, basetype.Uint32z:
-			return proto.Uint32(uint32(dv))
+			return proto.Uint32(uint32(math.Round(dv)))
 		case basetype.Float32:
 			return proto.Float32(float32(dv))
 		case basetype.Float64:
 			return proto.Float64(float64(dv))
 		case basetype.Sint64:
-			return proto.Int64(int64(dv))
+			return proto.Int64(int64(math.Round(dv)))
 		case basetype.Uint64, basetype.Uint64z:
-			return proto.Uint64(uint64(dv))
+			return proto.Uint64(uint64(math.Round(dv)))
 		}
 	case proto.TypeSliceFloat64:
 		switch baseType {
@@ -218,25 +230,25 @@ func DiscardAny(value any, baseType basetype.BaseType, scale, offset float64) an
 		dv := Discard(val, scale, offset)
 		switch baseType {
 		case basetype.Sint8:
-			return int8(dv)
+			return int8(math.Round(dv))
 		case basetype.Byte, basetype.Uint8, basetype.Uint8z:
-			return uint8(dv)
+			return uint8(math.Round(dv))
 		case basetype.Sint16:
-			return int16(dv)
+			return int16(math.Round(dv))
 		case basetype.Uint16, basetype.Uint16z:
-			return uint16(dv)
+			return uint16(math.Round(dv))
 		case basetype.Sint32:
-			return int32(dv)
+			return int32(math.Round(dv))
 		case basetype.Uint32, basetype.Uint32z:
-			return uint32(dv)
+			return uint32(math.Round(dv))
 		case basetype.Float32:
 			return float32(dv)
 		case basetype.Float64:
 			return float64(dv)
 		case basetype.Sint64:
-			return int64(dv)
+			return int64(math.Round(dv))
 		case basetype.Uint64, basetype.Uint64z:
-			return uint64(dv)
+			return uint64(math.Round(dv))
 		}
 	case []float64: // array of scaled values will always in []float64 form.
 		switch baseType {
